@@ -156,7 +156,24 @@ class Run:
         except subprocess.TimeoutExpired:
             raise Infra("harness timed out: " + " ".join(cmd))
         if p.returncode not in (0, 3):
-            raise Infra("harness failed (%d): %s\n%s" % (p.returncode, " ".join(cmd), p.stdout[-3000:]))
+            if self.prop != "C17":
+                raise Infra("harness failed (%d): %s\n%s" % (p.returncode, " ".join(cmd), p.stdout[-3000:]))
+            # C17: a call that kills the process.  Run again in intent mode to name the call, and let TLC judge it.
+            intent = out + ".intent"
+            env2 = dict(env, VERIF_INTENT=intent)
+            try:
+                p2 = subprocess.run(cmd, env=env2, stdout=subprocess.PIPE, stderr=subprocess.STDOUT, text=True, timeout=1800)
+            except subprocess.TimeoutExpired:
+                raise Infra("harness timed out in intent mode: " + " ".join(cmd))
+            if p2.returncode in (0, 3) or not os.path.exists(intent):
+                raise Infra("harness failed (%d) but not reproducibly: %s\n%s" % (p.returncode, " ".join(cmd), p.stdout[-2000:]))
+            d = json.load(open(intent))
+            d.update({"panic": True, "pmsg": "fatal: the call killed the process (exit %d): %s" % (p2.returncode, p2.stdout[-300:].replace("\n", " | ")),
+                      "timeout": False, "obsbad": True, "out": 0, "cmps": 0, "post": 0, "r": [], "mut": False, "fp": ["", "", ""]})
+            d.setdefault("a", {}); d.setdefault("rs", 1); d.setdefault("pre", 0); d.setdefault("cfg", {})
+            good = [l for l in open(out, errors="replace").read().split("\n") if l.endswith("}")]
+            open(out, "w").write("\n".join(good + [json.dumps(d)]) + "\n")
+            return out, {"events": len(good) + 1, "segments": 1, "distinct": 1, "fatal": True}, 3
         stats = {}
         sp = out + ".stats.json"
         if os.path.exists(sp):
